@@ -21,17 +21,21 @@ ID = "C19"
 LEVEL = "fault_enumeration"
 SEGMENT_TIMEOUT = 180
 TIERS = {
-    "quick": dict(plans=176, budget_s=70, worlds=4, det_plans=2),
+    "quick": dict(plans=184, budget_s=70, worlds=4, det_plans=2),
     "thorough": dict(plans=6000, budget_s=900, worlds=150, det_plans=8, always_selftest=True),
 }
 LOSSES = ["locus", "locus_decoy_sam", "locus_sliver", "gene_only", "neutral", "neutral_sparse", "empty", "depth_below", "depth_above", "stream_error", "seam_drop_locus"]
-ROUTES = ["yml", "bam", "cn"]
+ROUTES = ["yml", "bam", "cn", "cn_dump"]
 OUTS = ["aldy", "vcf", "simple", "none"]
 # full factorial of loss x route x output x {single, multi}; a batch walks through it
 GRID = [(l, r, o, m) for l in LOSSES for r in ROUTES for o in OUTS for m in (False, True)]
 
 
 def applicable(loss, route, multi):
+    if route == "cn_dump":
+        # history: the lossy sample is genotyped with --debug and a user-supplied structure, then the
+        # archive is genotyped; only for the losses that leave the whole locus without reads
+        return loss in ("locus", "empty") and not multi
     if route == "cn" and loss in ("neutral", "neutral_sparse"):
         return False  # no neutral region is consulted with a user-supplied structure
     if route == "cn" and loss == "gene_only":
@@ -367,7 +371,9 @@ def run_segment(seg):
     a, b = seg["gene_a"], seg["gene_b"]
     route = seg["route"]
     prof, cnr, cns = None, None, None
-    if route == "yml":
+    if route == "cn_dump":
+        cns = ["1", "1"]
+    elif route == "yml":
         prof = os.path.join(wd, man["profile_yml"])
     elif route == "bam":
         prof, cnr = os.path.join(wd, man["ref_bam"]), man["neutral"]
@@ -431,6 +437,12 @@ def run_segment(seg):
     if stream:
         SIM.cfg["stream"] = stream
     db = f"{dba},{dbb}" if seg["multi"] else dba
+    if route == "cn_dump":
+        # write the archive through the CLI (the run itself is refused, the archive is still made) ...
+        prefix = os.path.join(rd, "dbg")
+        O.run_main(["genotype", sam_path, "--gene", dba, "--cn", "1,1", "--debug", prefix, "--solver", "cbc"])
+        if os.path.exists(prefix + ".tar.gz"):
+            sam_path = prefix + ".tar.gz"  # ... and genotype the archive instead of the alignments
     rec = O.run_genotype(db, sam_path, prof, outp, cn_region=cnr, cn_solution=cns, params=params)
     rec.pop("_raw", None)
     if loss == "seam_drop_locus":
